@@ -4,7 +4,7 @@
     or guard that changes in the crate changes the statement being checked here. *)
 From Coq Require Import String.
 From Verif Require Import Base.Prelude Base.Cfg Model.ShortMsg Model.Newtypes
-  Generated.NewtypeTables Generated.CtrlConsts Spec.ConstSpec Proofs.BitFacts
+  Generated.NewtypeTables Generated.CtrlConsts Generated.SerdeShapes Spec.ConstSpec Proofs.BitFacts
   Proofs.NewtypeProofs.
 Open Scope Z_scope.
 Open Scope string_scope.
@@ -64,6 +64,21 @@ Proof.
   pose proof C04_new_checked_in_every_configuration as H. rewrite forallb_forall in H. exact (H _ Hin).
 Qed.
 
+(** deserialization is a safe way of obtaining a value too: in every feature configuration that
+    enables serde (with or without std / serde_repr; cfg_attr conditions evaluated by the
+    translator) the restricted integer types do not obtain Deserialize by a plain derive, which
+    would store any value of the representation type (Properties/C19.v has the rest) *)
+Fixpoint shape_of (name : string) (l : list (string * string)) : string :=
+  match l with
+  | [] => ""
+  | (n, s) :: t => if String.eqb n name then s else shape_of name t
+  end.
+
+Theorem C04_deserialization_checked_in_every_configuration :
+  forallb (fun cs => negb (String.eqb (shape_of "newtype" (snd cs)) "derive")) serde_shapes_by_cfg = true
+  /\ length serde_shapes_by_cfg = 4%nat.
+Proof. split; reflexivity. Qed.
+
 (** parsing never yields an out-of-range value *)
 Theorem C04_parse_in_range : forall pmax max s v,
   Z.of_N max <= pmax -> nt_from_str pmax max s = Some v -> (v <= max)%N.
@@ -89,6 +104,7 @@ Print Assumptions C04_conversions_stay_in_range.
 Print Assumptions C04_new_checked_in_every_configuration.
 Print Assumptions C04_new_guards_understood.
 Print Assumptions C04_new_panics_exactly_out_of_range.
+Print Assumptions C04_deserialization_checked_in_every_configuration.
 Print Assumptions C04_parse_in_range.
 Print Assumptions C04_constants_in_range.
 Print Assumptions C04_helpers_in_range.
